@@ -258,7 +258,10 @@ def itemNodes (strip : Bool) : Item → List Node
   | .rect lw b => [.elem ['r','e','c','t'] [(['l','i','n','e','w','i','d','t','h'], lw), (['b','b','o','x'], b)] [], nl]
   | .curve lw b pts =>
       [.elem ['c','u','r','v','e'] [(['l','i','n','e','w','i','d','t','h'], lw), (['b','b','o','x'], b), (['p','t','s'], pts)] [], nl]
-  | .image w h => [.elem ['i','m','a','g','e'] [(['w','i','d','t','h'], w), (['h','e','i','g','h','t'], h)] [], nl]
+  | .image w h src =>
+      [.elem ['i','m','a','g','e']
+         ((match src with | some n => [(['s','r','c'], maybeStrip strip n)] | none => []) ++
+          [(['w','i','d','t','h'], w), (['h','e','i','g','h','t'], h)]) [], nl]
   | .figure n b kids =>
       [.elem ['f','i','g','u','r','e'] [(['n','a','m','e'], maybeStrip strip n), (['b','b','o','x'], b)]
          (nl :: itemNodesL strip kids), nl]
@@ -301,7 +304,7 @@ def specTextItem : Item → Str
   | .line _ _ => []
   | .rect _ _ => []
   | .curve _ _ _ => []
-  | .image _ _ => []
+  | .image _ _ _ => []
   | .figure _ _ kids => specTextL kids
   | .textline _ kids => specTextL kids
   | .textbox _ _ _ kids => specTextL kids ++ ['\n']        -- one line break after each text box
